@@ -124,6 +124,7 @@ def gen_history(d, tier):
     L = len(full[0]) if full else 40
     case["cap"] = max(case["cap"], L + 1 + d.pick([0, 1, 8, 40]), d.pick([48, 64, 80, 100, 128, 200]))
     case["pre"] = g_pre(d, case["cap"])
+    case["crlf"] = d.below(2)         # the host ends every line with CR LF (the answers are framed CR LF then)
     return case
 
 
@@ -132,9 +133,10 @@ def run(case, W):
     cap = case["cap"]
     pre = case.get("pre")
     extra = [S.clone(pre["cmd"])] if pre else []
-    hist = b"".join(l + b"\n" for l in pre["lines"]) if pre else b""
+    eol = b"\r\n" if case.get("crlf") else b"\n"
+    hist = b"".join(l + eol for l in pre["lines"]) if pre else b""
     npre = len(pre["lines"]) if pre else 0
-    s1 = S.mk_spec([S.clone(c)] + extra, input=hist + b"AT" + c["name"] + b"?\n", shared=False, bufsz=cap, ubufsz=8)
+    s1 = S.mk_spec([S.clone(c)] + extra, input=hist + b"AT" + c["name"] + b"?" + eol, shared=False, bufsz=cap, ubufsz=8)
     t1 = W.run(s1, "plain")
     if not t1.ok:
         return Result(violation=("crash", str(t1.crash)))
@@ -144,7 +146,7 @@ def run(case, W):
     units, rest = split_units(out1)
     full = ref.Model(S.mk_spec([S.clone(c)], bufsz=16000)).read_text([], 0, 8000)
     fits = full is not None and len(full[0]) < cap
-    if not fits and out1 == b"\nERROR\n":
+    if not fits and out1 == eol + b"ERROR" + eol:
         return Result(labels=["read-does-not-fit"], nontrivial=False)
     if rest or len(units) != 2 or units[1][1] != b"OK" or not units[0][1].startswith(c["name"] + b"="):
         # a READ that does not fit the capacity is an ERROR: nothing to feed back (cap is chosen to fit, so this is unexpected)
@@ -154,14 +156,14 @@ def run(case, W):
     init = {(0, k): (v["init"] + bytes(v["size"]))[:v["size"]] for k, v in enumerate(c["vars"])}
     if before != init:
         return Result(violation=("read-modified", "READ changed variable storage: %r -> %r" % (init, before)))
-    s2 = S.mk_spec([S.clone(c)] + extra, input=hist + b"AT" + c["name"] + b"=" + payload + b"\n", shared=False, bufsz=cap, ubufsz=8)
+    s2 = S.mk_spec([S.clone(c)] + extra, input=hist + b"AT" + c["name"] + b"=" + payload + eol, shared=False, bufsz=cap, ubufsz=8)
     t2 = W.run(s2, "plain")
     if not t2.ok:
         return Result(violation=("crash", str(t2.crash)), runs=2)
     if t2.reason != "quiescent":
         return Result(violation=("no-quiescence", t2.reason), runs=2)
     out2 = t2.out_by_line(npre + 1)[npre + 1]
-    if out2 != b"\nOK\n":
+    if out2 != eol + b"OK" + eol:
         return Result(violation=("write-rejected", "READ printed %r but WRITE of that text answered %r%s" % (payload, out2, (" after the lines %r" % (pre["lines"],)) if pre else "")), runs=2)
     after = t2.final_vars()
     for k, v in enumerate(c["vars"]):
@@ -193,6 +195,8 @@ def run(case, W):
             labels.add("has-read-only")
     if cap - (len(payload) + len(c["name"]) + 1) <= 2:
         labels.add("capacity-just-fits")
+    if case.get("crlf"):
+        labels.add("crlf-host")
     if pre:
         labels.add("with-session-history")
         if b"ERROR" in b"".join(t1.out_by_line(npre + 1)[:npre + 1]):
